@@ -68,4 +68,9 @@ inst("remove_other","DataHashTable::remove(const HashItem& h) then get(h2) for e
 inst("clear","DataHashTable::clear() then has(h)",[IDX,{"function":H+r"clear\(.*\)","loop":0}],
   [{"name":"skip_first","slice":"DHT_clear.inc","find":"for(int i = 0;","replace":"for(int i = 1;"},
    {"name":"used","slice":"DHT_clear.inc","find":"m_used = 0;","replace":"m_used = 1;"}], min_obligations=15)
+EXPECTED_S={'lookup': 22, 'add': 28, 'remove': 25, 'remove_other': 28, 'clear': 10}
+THOROUGH_ONLY=[]
+for _i in u["instances"]:
+    if _i["name"] in EXPECTED_S: _i["expected_s"]=EXPECTED_S[_i["name"]]
+    if _i["name"] in THOROUGH_ONLY: _i["tier"]="thorough"
 json.dump(u, open(os.path.join(os.path.dirname(os.path.abspath(__file__)), "unit.json"), "w"), indent=1)
